@@ -14,7 +14,7 @@ import os
 import time
 import warnings
 
-from .. import core, registry, sched, oracles
+from .. import core, registry, sched, oracles, fixtures
 
 PROPERTY = 'C20'
 LEVEL = 'model_checking'
@@ -76,6 +76,10 @@ def scenario(name):
         if name == 'unregistered-vs-containers':
             return [lambda: (norm(pformat(object())), pformat({'a': 1}, width=4)),
                     lambda: (pformat([1], width=1),)]
+        if name == 'stdlib-lazy':
+            import uuid
+            u, e = uuid.UUID(int=1), fixtures.Color.RED
+            return [lambda: (pformat(u), pformat(e)), lambda: (pformat(e), pformat([u]))]
         if name == 'three-threads':
             return [lambda: (pformat(X()),), lambda: (pformat(Y()),), lambda: (pformat(X()),)]
         if name == 'three-threads-mixed':
@@ -85,7 +89,7 @@ def scenario(name):
 
 
 SCENARIOS_2 = ['name-vs-subclass', 'name-vs-same', 'name-twice-vs-subclass', 'nested-vs-direct', 'structseq',
-               'unregistered-vs-containers']
+               'unregistered-vs-containers', 'stdlib-lazy']
 SCENARIOS_3 = ['three-threads', 'three-threads-mixed']
 
 
@@ -237,6 +241,7 @@ def run(tier, seed):
                 ('nested-vs-direct', 1, A), ('nested-vs-direct', 2, V),
                 ('unregistered-vs-containers', 1, A),
                 ('structseq', 1, V),
+                ('stdlib-lazy', 1, A),
                 ('three-threads', 1, A), ('three-threads-mixed', 1, V)]
     else:
         plan = [('name-vs-subclass', 2, A), ('name-vs-subclass', 3, V),
@@ -245,6 +250,7 @@ def run(tier, seed):
                 ('nested-vs-direct', 1, A), ('nested-vs-direct', 2, V),
                 ('unregistered-vs-containers', 1, A), ('unregistered-vs-containers', 2, V),
                 ('structseq', 1, A), ('structseq', 2, V),
+                ('stdlib-lazy', 1, A), ('stdlib-lazy', 2, V),
                 ('three-threads', 1, A), ('three-threads', 2, V),
                 ('three-threads-mixed', 1, A), ('three-threads-mixed', 2, V)]
     desc = []
